@@ -34,11 +34,11 @@ theorem inv_appClose {σ : Srv} (hI : Inv σ) (sid : Nat) : ∃ σ', appClose σ
     exact ⟨σ', h1, h2⟩
   · exact ⟨σ, rfl, hI⟩
 
-theorem inv_step (cd : Codec) (dom : List Nat) {σ : Srv} (hI : Inv σ) (op : Op) : Inv (step cd dom σ op) := by
+theorem inv_step (cd : Codec) (hT : cd.Total) (dom : List Nat) {σ : Srv} (hI : Inv σ) (op : Op) : Inv (step cd dom σ op) := by
   unfold step stepAns
   cases op with
   | msg m =>
-    obtain ⟨σ', a, h, hI', _⟩ := onMessage_good cd dom hI m
+    obtain ⟨σ', a, h, hI', _⟩ := onMessage_good cd hT dom hI m
     simp only [h, Res.bind_ok]; exact hI'
   | close sid =>
     obtain ⟨σ', h, hI'⟩ := inv_appClose hI sid
@@ -47,23 +47,23 @@ theorem inv_step (cd : Codec) (dom : List Nat) {σ : Srv} (hI : Inv σ) (op : Op
   | tick dt => exact inv_tick hI dt
   | expire => exact expireWith_inv _ σ hI
 
-theorem inv_run (cd : Codec) (dom : List Nat) : ∀ (ops : List Op) (σ : Srv), Inv σ → Inv (run cd dom σ ops)
+theorem inv_run (cd : Codec) (hT : cd.Total) (dom : List Nat) : ∀ (ops : List Op) (σ : Srv), Inv σ → Inv (run cd dom σ ops)
   | [], _, h => h
-  | op :: r, σ, h => inv_run cd dom r _ (inv_step cd dom h op)
+  | op :: r, σ, h => inv_run cd hT dom r _ (inv_step cd hT dom h op)
 
 /-- Every state reachable from a fresh listener by any history of messages (any name, type, source address, any codec
     behaviour), application-side Close/Write calls, clock advances and runs of the pruning task satisfies the invariant:
     both tables keep their size and a session stored in slot i has id i. -/
-theorem C13_reachable_invariant (cd : Codec) (dom : List Nat) (ops : List Op) : Inv (run cd dom Srv.init ops) :=
-  inv_run cd dom ops _ inv_init
+theorem C13_reachable_invariant (cd : Codec) (hT : cd.Total) (dom : List Nat) (ops : List Op) : Inv (run cd dom Srv.init ops) :=
+  inv_run cd hT dom ops _ inv_init
 
 /-- **ids distinct**: in every reachable state two live slots never hold the same session, and the session in live
     slot i carries id i. -/
-theorem C13_ids_distinct (cd : Codec) (dom : List Nat) (ops : List Op) (i j sid : Nat)
+theorem C13_ids_distinct (cd : Codec) (hT : cd.Total) (dom : List Nat) (ops : List Op) (i j sid : Nat)
     (hi : (run cd dom Srv.init ops).live[i]? = some (some sid))
     (hj : (run cd dom Srv.init ops).live[j]? = some (some sid)) :
     i = j ∧ ((run cd dom Srv.init ops).sess sid).uid = i := by
-  have hI := C13_reachable_invariant cd dom ops
+  have hI := C13_reachable_invariant cd hT dom ops
   have a := hI.liveOk i sid hi
   have b := hI.liveOk j sid hj
   exact ⟨a.2.symm.trans b.2, a.2⟩
@@ -93,7 +93,7 @@ theorem vErrName_badIp : vErrName .badIp = SA.Gen.errBadIp := rfl
     session's owner, changes *nothing* in the server state (no read, no acknowledgement, no option change, no refresh of
     the last-contact time, no close) and is answered with BADIP (or BADCODEC when its body does not decode with the
     victim's codec, or dropped when the answer cannot be wrapped) — never with data.  By cases over the command table. -/
-theorem C13_spoof_rejected (cd : Codec) (dom : List Nat) (σ : Srv) (m : Msg) (i sid : Nat)
+theorem C13_spoof_rejected (cd : Codec) (hT : cd.Total) (dom : List Nat) (σ : Srv) (m : Msg) (i sid : Nat)
     (hid : msgUid dom m = some i) (hlive : σ.live[i]? = some (some sid)) (hforeign : (σ.sess sid).owner ≠ m.addr) :
     ∃ a, onMessage cd dom σ m = ok (σ, a) ∧
       (a = .drop ∨ a = .err 101 SA.Gen.errBadCodec ∨ ∃ c, a = .err c SA.Gen.errBadIp) := by
@@ -123,7 +123,7 @@ theorem C13_spoof_rejected (cd : Codec) (dom : List Nat) (σ : Srv) (m : Msg) (i
             have hv : validate σ uid m.addr = ok (σ, some sid, .badIp) := by
               unfold validate idxOpt
               simp [hlive, hforeign]
-            obtain ⟨q, hq, hquid⟩ := decodeRequest_spec cd code true (upOf σ (some sid)) request rest uid hh
+            obtain ⟨q, hq, hquid⟩ := decodeRequest_spec cd hT code true (upOf σ (some sid)) request rest uid hh
             unfold onMessage
             simp only [hs, hc, Res.bind_ok, hh, hv, Bool.not_true, Bool.false_eq_true, ite_false, Option.isNone_some,
               Bool.false_and, Option.isSome_some, Bool.true_and, decide_eq_true_eq, reduceCtorEq, hq]
@@ -135,9 +135,9 @@ theorem C13_spoof_rejected (cd : Codec) (dom : List Nat) (σ : Srv) (m : Msg) (i
             | some q =>
               cases q with
               | version v =>
-                exact absurd ((decodeRequest_kind cd code true _ request _ hq).1 v rfl) (needsUser_codes _ (findCmd_mem _ _ _ hc) rfl).1
+                exact absurd ((decodeRequest_kind cd hT code true _ request _ hq).1 v rfl) (needsUser_codes _ (findCmd_mem _ _ _ hc) rfl).1
               | downTest c =>
-                exact absurd ((decodeRequest_kind cd code true _ request _ hq).2 c rfl) (needsUser_codes _ (findCmd_mem _ _ _ hc) rfl).2
+                exact absurd ((decodeRequest_kind cd hT code true _ request _ hq).2 c rfl) (needsUser_codes _ (findCmd_mem _ _ _ hc) rfl).2
               | options u o =>
                 have : u = uid := hquid _ u rfl rfl
                 subst this
@@ -232,11 +232,11 @@ theorem C13_closed_id_inert (cd : Codec) (dom : List Nat) (σ : Srv) (m : Msg) (
     sequence / acknowledgement numbers, any body), every session owned by another address is byte-for-byte unchanged —
     queues, codecs, fragment size, closed flag, last-contact time — and keeps its live slot.  The handler also does not
     panic and re-establishes the invariant. -/
-theorem C13_foreign_message_preserves (cd : Codec) (dom : List Nat) (σ : Srv) (hI : Inv σ) (m : Msg) (sid : Nat)
+theorem C13_foreign_message_preserves (cd : Codec) (hT : cd.Total) (dom : List Nat) (σ : Srv) (hI : Inv σ) (m : Msg) (sid : Nat)
     (hs : sid < σ.heap.length) (hforeign : (σ.sess sid).owner ≠ m.addr) :
     ∃ σ' a, onMessage cd dom σ m = ok (σ', a) ∧ Inv σ' ∧ σ'.sess sid = σ.sess sid ∧
       ∀ i : Nat, σ.live[i]? = some (some sid) → σ'.live[i]? = some (some sid) := by
-  obtain ⟨σ', a, h, hI', hF⟩ := onMessage_good cd dom hI m
+  obtain ⟨σ', a, h, hI', hF⟩ := onMessage_good cd hT dom hI m
   exact ⟨σ', a, h, hI', hF.sessEq sid hs hforeign, fun i hl => hF.liveKeep i sid hs hforeign hl⟩
 
 /-- **closing another session is harmless**: Close() of the session object `other` (even one retired long ago, even
@@ -267,12 +267,12 @@ theorem C13_expiry_loops_safe : safeLoops SA.Gen.connectionTimeout SA.Gen.expiry
     the pruning task (so in particular with its identifier re-used from a retired session of any age), a live session
     whose owner has been heard within ConnectionTimeout is still live, in the same slot and unchanged, after a run of
     the pruning task. -/
-theorem C13_unrelated_expiry_harmless (cd : Codec) (dom : List Nat) (ops : List Op) (i sid : Nat)
+theorem C13_unrelated_expiry_harmless (cd : Codec) (hT : cd.Total) (dom : List Nat) (ops : List Op) (i sid : Nat)
     (hlive : (run cd dom Srv.init ops).live[i]? = some (some sid))
     (hfresh : (run cd dom Srv.init ops).now ≤ ((run cd dom Srv.init ops).sess sid).last + SA.Gen.connectionTimeout) :
     (expire (run cd dom Srv.init ops)).live[i]? = some (some sid) ∧
     (expire (run cd dom Srv.init ops)).sess sid = (run cd dom Srv.init ops).sess sid := by
-  have hI := C13_reachable_invariant cd dom ops
+  have hI := C13_reachable_invariant cd hT dom ops
   have hK := expireWith_keeps (σ0 := run cd dom Srv.init ops) hfresh SA.Gen.expiryLoops _ C13_expiry_loops_safe
     ⟨hI, hlive, fun _ => rfl, rfl⟩
   exact ⟨hK.live, hK.sess sid⟩
